@@ -1,6 +1,7 @@
 package main
 
 import (
+	"fmt"
 	"go/ast"
 	"go/token"
 	"strings"
@@ -12,6 +13,31 @@ import (
 func init() {
 	register(&Module{Name: "Distinct", Run: func(x *X) {
 		const f = "distinct/distinct.go"
+		// Every definition is ALWAYS emitted exactly once (deferred, in a fixed order) — with the pinned value as
+		// a fall-back when the source no longer has the expected shape (then `recognised := false`) — so that
+		// the driver still builds and the search for a failing input can run against the pinned model.
+		type fact struct{ name, typ, val, doc string }
+		facts := []*fact{
+			{"coinGuardOp", "String", `"<"`, "fall-back (pinned): a coin is flipped only when `c.p < math.MaxUint64`"},
+			{"coinDropOp", "String", `">="`, "fall-back (pinned): the element is dropped when `c.rng.Uint64() >= c.p`"},
+			{"halvingIsLoop", "Bool", "false", "fall-back (pinned): a single halving pass (`if`)"},
+			{"capOp", "String", `">="`, "fall-back (pinned): the halving pass runs when `c.buf.Len() >= c.cap`"},
+			{"removeBit", "Nat", "0", "fall-back (pinned): `if rnd&1 == 0 { c.buf.Remove(elt) }`"},
+			{"keepOne", "Bool", "true", "fall-back (pinned): a low bit of 1 keeps the element"},
+			{"pShift", "Nat", "1", "fall-back (pinned): `c.p >>= 1`"},
+		}
+		set := func(name, val, doc string) {
+			for _, ft := range facts {
+				if ft.name == name {
+					ft.val, ft.doc = val, doc
+				}
+			}
+		}
+		defer func() {
+			for _, ft := range facts {
+				x.emit("/-- %s -/\ndef %s : %s := %s\n", ft.doc, ft.name, ft.typ, ft.val)
+			}
+		}()
 		add := x.Func(f, "Counter", "Add")
 		reset := x.Func(f, "Counter", "Reset")
 		count := x.Func(f, "Counter", "Count")
@@ -50,7 +76,7 @@ func init() {
 		if gl != "c.p" || gr != "math.MaxUint64" {
 			x.fail("Add: entropy guard is not a comparison of c.p with math.MaxUint64: %s", x.Src(guard))
 		}
-		x.emit("/-- `Add`: a coin is flipped only when `c.p %s math.MaxUint64` -/\ndef coinGuardOp : String := %q\n", gop, gop.String())
+		set("coinGuardOp", fmt.Sprintf("%q", gop.String()), fmt.Sprintf("`Add`: a coin is flipped only when `c.p %s math.MaxUint64`", gop))
 		// coin, normalised to `word OP c.p` (true ⇒ the element is dropped)
 		cop := test.Op
 		cl, cr := x.Src(test.X), x.Src(test.Y)
@@ -60,7 +86,7 @@ func init() {
 		if cl != "c.rng.Uint64()" || cr != "c.p" {
 			x.fail("Add: coin test is not a comparison of c.rng.Uint64() with c.p: %s", x.Src(test))
 		}
-		x.emit("/-- `Add`: the element is dropped (and Add returns) when `c.rng.Uint64() %s c.p` -/\ndef coinDropOp : String := %q\n", cop, cop.String())
+		set("coinDropOp", fmt.Sprintf("%q", cop.String()), fmt.Sprintf("`Add`: the element is dropped (and Add returns) when `c.rng.Uint64() %s c.p`", cop))
 		if len(coin.Body.List) != 2 || x.Src(coin.Body.List[0]) != "c.buf.Remove(v)" || x.Src(coin.Body.List[1]) != "return" {
 			x.fail("Add: coin branch is not `c.buf.Remove(v); return`: %s", x.Src(coin.Body))
 		}
@@ -89,7 +115,7 @@ func init() {
 			x.fail("Add: third statement is neither `if` nor `for`")
 			return
 		}
-		x.emit("/-- `Add`: is the halving pass repeated until the buffer is below capacity (`for`) or run once (`if`)? -/\ndef halvingIsLoop : Bool := %v\n", isLoop)
+		set("halvingIsLoop", fmt.Sprint(isLoop), "`Add`: is the halving pass repeated until the buffer is below capacity (`for`) or run once (`if`)?")
 		hc, ok := hcond.(*ast.BinaryExpr)
 		if !ok {
 			x.fail("Add: capacity test is not a comparison: %s", x.Src(hcond))
@@ -103,7 +129,7 @@ func init() {
 		if (hl != "c.buf.Len()" && hl != "len(c.buf)") || hr != "c.cap" {
 			x.fail("Add: capacity test does not compare the buffer length with c.cap: %s", x.Src(hcond))
 		}
-		x.emit("/-- `Add`: the halving pass runs when `c.buf.Len() %s c.cap` -/\ndef capOp : String := %q\n", hop, hop.String())
+		set("capOp", fmt.Sprintf("%q", hop.String()), fmt.Sprintf("`Add`: the halving pass runs when `c.buf.Len() %s c.cap`", hop))
 
 		if len(hbody.List) != 3 {
 			x.fail("Add: halving block is not `var nb, rnd; for range c.buf {…}; c.p >>= s` (%d statements)", len(hbody.List))
@@ -145,8 +171,8 @@ func init() {
 		if bt.Op == token.NEQ {
 			removeBit = 1 - removeBit
 		}
-		x.emit("/-- halving pass: `if %s { c.buf.Remove(%s) }` — an element is removed when the low bit is `removeBit`, kept otherwise -/\ndef removeBit : Nat := %d\n", x.Src(rm.Cond), elt, removeBit)
-		x.emit("/-- does a low bit of 1 keep the element? -/\ndef keepOne : Bool := %v\n", removeBit == 0)
+		set("removeBit", fmt.Sprint(removeBit), fmt.Sprintf("halving pass: `if %s { c.buf.Remove(%s) }` — an element is removed when the low bit is `removeBit`, kept otherwise", x.Src(rm.Cond), elt))
+		set("keepOne", fmt.Sprint(removeBit == 0), "does a low bit of 1 keep the element?")
 		if x.Src(rb[2]) != "rnd >>= 1" || x.Src(rb[3]) != "nb--" {
 			x.fail("Add: halving pass does not consume one bit per element (`rnd >>= 1; nb--`): %s; %s", x.Src(rb[2]), x.Src(rb[3]))
 		}
@@ -155,7 +181,7 @@ func init() {
 			x.fail("Add: the block does not end with `c.p >>= s`: %s", x.Src(hbody.List[2]))
 			return
 		}
-		x.emit("/-- `Add`: `%s` after the halving pass -/\ndef pShift : Nat := %s\n", x.Src(sh), x.NatExpr(sh.Rhs[0], nil))
+		set("pShift", x.NatExpr(sh.Rhs[0], nil), fmt.Sprintf("`Add`: `%s` after the halving pass", x.Src(sh)))
 
 		// --- Reset and Count
 		if x.Src(reset.Body) != "{ c.buf.Clear(); c.p = math.MaxUint64 }" && x.Src(reset.Body) != "{ c.buf.Clear() c.p = math.MaxUint64 }" {
